@@ -197,10 +197,13 @@ def run(ctx):
             raise vlib.ToolError("generators are vacuous: %s = %d" % (k, st[k]))
     n_lib, known_lib = triage_and_validate(ctx, tp, ap, "lib", selftest=True)
 
+    if ctx.violations:
+        return          # already decided; the CLI stage (a second, long build) adds nothing
+
     # ---------------- the CLI
     cli = vlib.cli_bin()
     tc, ac = ctx.path("trace-cli.ndjson"), ctx.path("anomalies-cli.ndjson")
-    rc, out, wall = vlib.sh([b, "cli", ip, tc, "cli=" + cli, "anomalies=" + ac, "max=%d" % (150 if q else 1200), "cmds=%d" % (6 if q else 8),
+    rc, out, wall = vlib.sh([b, "cli", ip, tc, "cli=" + cli, "anomalies=" + ac, "max=%d" % (100 if q else 1200), "cmds=%d" % (5 if q else 8), "threads=4",
                              "seed=%d" % ctx.seed, "tmp=" + ctx.work], timeout=6000)
     sc = json.loads(out.strip().splitlines()[-1])
     per_cmd = sc.pop("per_cmd")
